@@ -11,4 +11,8 @@ theorem persister_blocks :
     (dbGetBatchReadsAtomic && dbHasBatchReadsAtomic && serialGetBatchReadsAtomic && serialHasBatchReadsAtomic &&
      serialFlushHoldsLock && dbFlushHoldsLock) = true := by decide
 
+/-- a flush is ONE critical section of the batch mutex in both persisters: the records handed to LevelDB and the records dropped
+    by the reset that follows are the same records — nothing can enter the batch between the write and the reset -/
+theorem flush_is_one_critical_section : (serialFlushHoldsLock && dbFlushHoldsLock) = true := by decide
+
 end SV.Facts
